@@ -126,7 +126,10 @@ func Run(cfg Config, res *core.Result) error {
 				if w == nil {
 					w, err = newWorld(st, bh.steps[0], bh.steps[1].Pi, res)
 					if err != nil {
-						errs <- err
+						// the honest shuffle / prover of the library failed on honest input: completeness violation
+						res.Violate(fmt.Sprintf("%s/%s/%s:none/honest-error", cfg.Prop, st.Name, bh.steps[0].Kind),
+							"the library's honest shuffle or prover returns an error on honest input", map[string]any{"err": err.Error(), "k": bh.steps[0].K, "nq": bh.steps[0].NQ})
+						w = nil
 						return
 					}
 				}
@@ -560,7 +563,8 @@ func (r *replayer) run(w *world) error {
 		var err error
 		Xb, Yb, prf, err = r.biffleTamper(w, adv.A, adv.B)
 		if err != nil {
-			return fmt.Errorf("harness: biffle forger failed: %w", err)
+			r.res.Skip("forger-could-not-produce-a-transcript")
+			return nil
 		}
 	case "replace":
 		rr, mm := s.NonZeroScalar(), s.NonZeroScalar()
@@ -686,19 +690,25 @@ func (r *replayer) run(w *world) error {
 			return inner(ec)
 		})
 		if err != nil || !ec.done {
-			return fmt.Errorf("harness: equation forger failed (altered=%v): %v", ec.done, err)
+			if err != nil {
+				r.res.Skip("forger-could-not-produce-a-transcript")
+				return nil
+			}
+			return fmt.Errorf("harness: equation forger altered nothing")
 		}
 	case "simboth":
 		var err error
 		Xb, Yb, prf, err = r.biffleSimulate(w)
 		if err != nil {
-			return fmt.Errorf("harness: biffle simulator failed: %w", err)
+			r.res.Skip("forger-could-not-produce-a-transcript")
+			return nil
 		}
 	case "detach":
 		var err error
 		Xb, Yb, prf, err = r.forgeDetached(w)
 		if err != nil {
-			return fmt.Errorf("harness: forging failed: %w", err)
+			r.res.Skip("forger-could-not-produce-a-transcript")
+			return nil
 		}
 	default:
 		return fmt.Errorf("unknown family %q", adv.F)
